@@ -39,8 +39,8 @@ def mk_family(name, sub, gen, judge_fn=None, split=None):
     fam.prejudge = tp
     def judge(case, impl, spec):
         other = fam.normal(tp.second.get(case, "MISSING"))
-        if any(("Timeout" in o or o in ("TIMEOUT", "HANG")) for o in (impl, other)):
-            return None          # "as long as no time limit interferes": a run cut by its limit (or by the watchdog) is not compared
+        if any(("Timeout" in o or o in ("TIMEOUT", "HANG") or o.startswith("CRASH")) for o in (impl, other)):
+            return None          # "as long as no time limit interferes": a run cut by its limit, by the watchdog or by the harness's address-space cap (CRASH: the allocator's message differs from run to run) is not compared
         if other != impl:
             return "two processes disagree: %r vs %r" % (impl[:200], other[:200])
         return judge_fn(case, impl, spec) if judge_fn else None
